@@ -125,6 +125,11 @@ func c11Setup(sc c11Scenario) (*c11World, error) {
 		return nil, fmt.Errorf("base persist: %v", r)
 	}
 	cw := &c11World{w: w, root: w.Roots[0], baseC: w.RootC[0]}
+	if sc.Capture == "coldload" {
+		// the cache lost its entries: the trees below decode their nodes from the store and
+		// share the decoded objects through the cache
+		w.Cache.Clear()
+	}
 	for i := range sc.Seqs {
 		var t *mast.Mast
 		switch {
@@ -177,7 +182,10 @@ func c11Scenarios(thorough bool) []c11Scenario {
 	for pi, pl := range plans {
 		cfg := c11Configs()[pl.cfg]
 		ops := single(cfg, pl.keys)
-		for _, capt := range []string{"load", "clone"} {
+		for _, capt := range []string{"load", "clone", "coldload"} {
+			if capt == "coldload" && pl.cfg == 2 {
+				continue
+			}
 			for _, a := range ops {
 				for _, b := range ops {
 					if a.Kind == "get" && b.Kind == "get" {
